@@ -9,3 +9,14 @@ Local Open Scope N_scope.
 Definition Rhread := hread RH r_init r_raw r_rle r_cblock r_hash.
 Definition Rsread := sread RH r_init r_raw r_rle r_cblock r_hash.
 Definition Rextent := frame_extent.
+
+(* ---------- the public entry points of streaming compression (C10Api.v) around the tape block compressor ---------- *)
+From ZV.Stream Require Import CStreamModel C10Api.
+Definition Ta_new (t : tape) := @a_new tape t.
+Definition Ta_call := a_call tape tape_begin tape_chunk.
+Definition Ta_stream := a_stream tape tape_begin tape_chunk.
+Definition Ta_flushStream := a_flushStream tape tape_begin tape_chunk.
+Definition Ta_endStream := a_endStream tape tape_begin tape_chunk.
+Definition Ta_reset := @a_reset tape.
+Definition Ta_wview := @wview tape.
+Definition Ta_hint := @k_hint tape.
